@@ -6,6 +6,7 @@
 //!
 //!   c09 apply <opts> <now_ns> <perm|-> <snap;snap;…|->
 //!   c09 cal <t_ns> <off_s>      c09 add <t_ns> <off_s> <span>      c09 eq <t1> <off1> <t2> <off2>
+//!   c09 mark <n|N|A<t_ns>> <off_s of the mark> <now_ns> <off_s of now>     (must_keep / must_delete / from_snapshots)
 //! opts: comma list of l|M|H|d|w|m|q|h|y=<i32>, W<l|M|…>=<span>, tags=a+b|c, ids=ab|~, none, unch ("-" = none)
 //! span: p|n.years.months.weeks.days.time_ns      snap: t_ns:off_s:id8hex:tree:tags:del (del = n | N | A<t_ns>)
 //! perm: the order the (deterministic) unstable sort leaves the snapshots in, as input indices joined by "."
@@ -276,6 +277,45 @@ pub fn exec(toks: &[&str]) -> String {
                 let bits = rustic_core::verif::forget::period_predicates(&a, &b);
                 format!("ok {}", bits.iter().map(|x| if *x { '1' } else { '0' }).collect::<String>())
             }
+            (Some("mark"), 5) => {
+                // the delete mark alone: `must_keep`, `must_delete` (public) and `ForgetGroups::from_snapshots`
+                // (forget with explicit ids) — inside `apply` the `<` of `must_delete` is shadowed by `must_keep`
+                let (Ok(doff), Ok(now_ns), Ok(noff)) = (toks[2].parse::<i32>(), toks[3].parse::<i128>(), toks[4].parse::<i32>()) else { return "bad-op".into() };
+                let Some(now) = zoned(now_ns, noff) else { return "bad-op".into() };
+                let mut sn = SnapshotFile::default();
+                sn.delete = match toks[1] {
+                    "n" => DeleteOption::NotSet,
+                    "N" => DeleteOption::Never,
+                    a => {
+                        let Some(t) = a.strip_prefix('A').and_then(|x| x.parse::<i128>().ok()).and_then(|t| zoned(t, doff)) else { return "bad-op".into() };
+                        DeleteOption::After(t)
+                    }
+                };
+                let (k, d) = (sn.must_keep(&now), sn.must_delete(&now));
+                let groups = rustic_core::ForgetGroups::from_snapshots(vec![sn.clone()], &now);
+                let (mut n, mut f) = (0, false);
+                for g in &groups.0 {
+                    for it in &g.items {
+                        n += 1;
+                        f = it.keep;
+                    }
+                }
+                if n != 1 {
+                    return "oracle-fail:from-snapshots-lost-the-snapshot".into();
+                }
+                // statement level: a mark whose time has passed (strictly) is expired, one whose time is now or later protects
+                if let DeleteOption::After(t) = &sn.delete {
+                    let passed = t.timestamp() < now.timestamp();
+                    if d != passed {
+                        return format!("oracle-fail:must-delete-{d}-but-passed-{passed}");
+                    }
+                    if k == passed {
+                        return format!("oracle-fail:must-keep-{k}-but-passed-{passed}");
+                    }
+                }
+                let b = |x: bool| if x { '1' } else { '0' };
+                format!("ok k={} d={} f={}", b(k), b(d), b(f))
+            }
             _ => "bad-op".into(),
         }
     })
@@ -521,6 +561,26 @@ pub fn generate(thorough: bool, rng: &mut Rng, ops: &mut Vec<String>, stats: &mu
         stats.hit("op.eq");
         ops.push(format!("c09 add {t} {off} {}", gen_span(rng)));
         stats.hit("op.add");
+    }
+    // delete marks at the boundary `delete-after == now` (and one ns / one s around it), any two zone offsets
+    for _ in 0..(if thorough { 20_000 } else { 2_000 }) {
+        let off = *rng.pick(&OFFSETS);
+        let t = boundary(rng, off, stats) + delta(rng);
+        let now = t + match rng.below(8) {
+            0 | 1 | 2 => 0,
+            3 => 1,
+            4 => -1,
+            5 => SEC,
+            6 => -SEC,
+            _ => delta(rng),
+        };
+        let del = match rng.below(8) {
+            0 => "n".to_string(),
+            1 => "N".to_string(),
+            _ => format!("A{t}"),
+        };
+        ops.push(format!("c09 mark {del} {} {now} {}", rng.pick(&OFFSETS), rng.pick(&OFFSETS)));
+        stats.hit("op.mark");
     }
     // dense: every day from Dec 24 to Jan 8 (ISO week-year edges) and the last three days of every month
     let years: Vec<i16> = if thorough { (1900..=2200).collect() } else { (1995..=2035).collect() };
